@@ -553,4 +553,119 @@ Section LIFT.
           pose proof (sf_ops _ _ _ _ _ FT _ Hop) as Os. cbn in Os. destruct Os as [Lv _]. inversion Kop. lia.
     Qed.
   End UPLIFT.
+
+  (* ============================ the three tiers ============================ *)
+  Section DB3.
+    Variables US UP UE : list N -> Prop.
+    Hypothesis PFS : pfree US. Hypothesis US0 : ~ US [].
+    Hypothesis PFP : pfree UP. Hypothesis UP0 : ~ UP [].
+    Hypothesis PFE : pfree UE. Hypothesis UE0 : ~ UE [].
+
+    (* substate tier instance at prefix Q *)
+    Definition RLs (Q : list N) (pv : N) (a : snodeT) : list skey := Rs Q (Some (pv, a)).
+    Definition LowOKs (sroot : option (N * snodeT)) : Prop := state_ok H unit US fuel sroot.
+
+    Lemma RLs_below : forall Q pv a k, In k (RLs Q pv a) -> path_prefix Q (snd k).
+    Proof. intros Q pv a k Hk. unfold RLs, Rs in Hk. apply in_map_iff in Hk. destruct Hk as (k' & E & _). subst k. apply path_prefix_app. Qed.
+
+    Lemma RLo_s : forall Q sroot, RLo snodeT RLs Q sroot = Rs Q sroot.
+    Proof. intros Q [[pv a]|]; reflexivity. Qed.
+
+    (* partition tier instance of entity ek (prefix ek ++ SEP) *)
+    Definition RLp (Q : list N) (pv : N) (pt : pnodeT) : list skey := Rup snodeT RLs Q (Some (pv, pt)).
+    Definition LowOKp (proot : option (N * pnodeT)) : Prop :=
+      state_ok H snodeT UP fuel proot /\
+      forall y vh pv a, root_sem snodeT fuel proot y = Some (vh, pv, a) -> LowOKs (Some (pv, a)).
+
+    Lemma Rup_below : forall A (RL : list N -> N -> A -> list skey),
+      (forall Q pv a k, In k (RL Q pv a) -> path_prefix Q (snd k)) ->
+      forall P root k, In k (Rup A RL P root) -> path_prefix P (snd k).
+    Proof.
+      intros A RL Hb P root k Hk. unfold Rup in Hk. apply in_app_or in Hk. destruct Hk as [Hk|Hk].
+      - unfold Rs in Hk. apply in_map_iff in Hk. destruct Hk as (k' & E & _). subst k. apply path_prefix_app.
+      - destruct root as [[v t]|]; [|destruct Hk]. apply leaf_reach_in in Hk. destruct Hk as (y & vh & pv & a & _ & Hk).
+        eapply path_prefix_trans; [|apply (Hb _ _ _ _ Hk)]. apply path_prefix_app.
+    Qed.
+    Lemma RLp_below : forall Q pv a k, In k (RLp Q pv a) -> path_prefix Q (snd k).
+    Proof. intros Q pv a k Hk. apply (Rup_below snodeT RLs RLs_below Q _ k Hk). Qed.
+
+    Lemma partition_facts : forall ek proot ver pus h r ops v0,
+      ok_eupd fuel US UP pus -> LowOKp proot ->
+      partition_tier_put H fuel ek proot ver pus = Ok (h, r, ops) ->
+      vers_le v0 (RLo pnodeT RLp (ek ++ TIER_SEP) proot) -> v0 < ver ->
+      step_facts (ek ++ TIER_SEP) ver ops (RLo pnodeT RLp (ek ++ TIER_SEP) proot) (RLp (ek ++ TIER_SEP) ver r).
+    Proof.
+      intros ek proot ver pus h r ops v0 OKp [SOp LOp] E VR Lt.
+      rewrite partition_put_is_upper in E.
+      assert (EQ : RLo pnodeT RLp (ek ++ TIER_SEP) proot = Rup snodeT RLs (ek ++ TIER_SEP) proot).
+      { destruct proot as [[pv pt]|]; reflexivity. }
+      rewrite EQ in *. unfold RLp.
+      apply (upper_facts snodeT pupdate UP PFP UP0
+               (fun ver key sroot u => substate_tier_put H fuel ((ek ++ TIER_SEP) ++ key ++ TIER_SEP) sroot ver u)
+               (ok_pupd fuel US) LowOKs RLs RLs_below (ek ++ TIER_SEP)) with (xs := pus) (h := h) (v0 := v0); try assumption.
+      - intros ver' key sroot x h' r' ops' v0' Ox LO El VR' Lt'. rewrite RLo_s in *.
+        apply (substate_facts US _ sroot ver' x h' r' ops' v0' PFS US0 Ox LO El VR' Lt').
+      - intros v t E0. discriminate.
+    Qed.
+
+    (* the entity tier = the whole store *)
+    Definition reach_db (st : tree_state) : list skey := Rup pnodeT RLp [] st.
+
+    Definition LowOKe (st : tree_state) : Prop :=
+      state_ok H pnodeT UE fuel st /\
+      forall y vh pv a, root_sem pnodeT fuel st y = Some (vh, pv, a) -> LowOKp (Some (pv, a)).
+
+    Lemma entity_facts : forall st ver eus h r ops v0,
+      ok_commit fuel US UP UE eus -> LowOKe st ->
+      entity_tier_put H fuel st ver eus = Ok (h, r, ops) ->
+      vers_le v0 (reach_db st) -> v0 < ver ->
+      step_facts [] ver ops (reach_db st) (reach_db (Some (ver, r))).
+    Proof.
+      intros st ver eus h r ops v0 OKc [SOe LOe] E VR Lt. rewrite entity_put_is_upper in E. unfold reach_db in *.
+      apply (upper_facts pnodeT (list (list N * pupdate)) UE PFE UE0
+               (fun ver key proot pus => partition_tier_put H fuel key proot ver pus)
+               (ok_eupd fuel US UP) LowOKp RLp RLp_below []) with (xs := eus) (h := h) (v0 := v0); try assumption.
+      - intros ver' key proot x h' r' ops' v0' Ox LO El VR' Lt'. cbn [app] in *.
+        apply (partition_facts key proot ver' x h' r' ops' v0' Ox LO El VR' Lt').
+      - split; [intros v t E0; discriminate|]. intros y vh pv a E0. discriminate.
+    Qed.
+
+    (* the C17 invariant provides the well-formedness of all lower tiers *)
+    Lemma db_rel_low : forall st d, db_rel H fuel US UP UE st d -> LowOKe st.
+    Proof.
+      intros st d DR. unfold db_rel in DR. destruct st as [[v t]|].
+      - destruct DR as (_ & RO & TO & Rel). split.
+        + intros v' t' E0. inversion E0; subst. split; assumption.
+        + intros y vh pv a Ey. cbn [root_sem] in Ey. specialize (Rel y). rewrite Ey in Rel.
+          match type of Rel with match ?m with _ => _ end => destruct m as [e|] end; [|exact (False_ind _ Rel)]. destruct Rel as ((_ & ROp & TOp & Relp) & _ & _).
+          split.
+          * intros v' t' E0. inversion E0; subst. split; assumption.
+          * intros y2 vh2 pv2 a2 Ey2. cbn [root_sem] in Ey2. specialize (Relp y2). rewrite Ey2 in Relp.
+            match type of Relp with match ?m with _ => _ end => destruct m as [p|] end; [|exact (False_ind _ Relp)]. destruct Relp as ((_ & ROs & TOs & _) & _ & _).
+            intros v' t' E0. inversion E0; subst. split; assumption.
+      - split; [intros v t E0; discriminate|]. intros y vh pv a E0. discriminate.
+    Qed.
+
+    Definition ver_of (st : tree_state) : N := match st with Some (v, _) => v | None => 0 end.
+
+    (* C18_reach_step for the whole store: one commit of put_at_next_version *)
+    Theorem commit_facts : forall st d u,
+      (forall x, H x <> ZERO_HASH) ->
+      db_rel H fuel US UP UE st d -> ok_commit fuel US UP UE u -> vers_le (ver_of st) (reach_db st) ->
+      exists root st' ops, put_at_next_version H fuel st u = Ok (root, st', ops) /\
+        db_rel H fuel US UP UE st' (apply_commit d u) /\
+        ver_of st' = ver_of st + 1 /\
+        step_facts [] (ver_of st + 1) ops (reach_db st) (reach_db st').
+    Proof.
+      intros st d u HZ DR OKu VR.
+      destruct (commit_ok H fuel Hfuel HZ US UP UE PFS US0 PFP UP0 PFE UE0 st d u DR OKu) as (st' & ops & E & DR').
+      exists (db_root H fuel (apply_commit d u)), st', ops. split; [exact E|]. split; [exact DR'|].
+      unfold put_at_next_version in E.
+      assert (Ev : match st with Some (v, _) => v + 1 | None => 1 end = ver_of st + 1) by (destruct st as [[v t]|]; reflexivity).
+      rewrite Ev in E.
+      destruct (entity_tier_put H fuel st (ver_of st + 1) u) as [[[h r] ops0]| |] eqn:EE; try discriminate.
+      inversion E; subst st' ops0. split; [reflexivity|].
+      apply (entity_facts st (ver_of st + 1) u h r ops (ver_of st) OKu (db_rel_low st d DR) EE VR). lia.
+    Qed.
+  End DB3.
 End LIFT.
